@@ -45,21 +45,34 @@
 (*                 of different subnets / families never interact (the     *)
 (*                 lazy clean-up, which runs for all families inside every *)
 (*                 SubnetLimiter.Allow, is not observable by R6).          *)
-(*  R6 forgetting  A subnet bucket is dropped from the heap only when it   *)
+(*  R6 forgetting  A subnet bucket is dropped from the heap (a) only when it   *)
 (*                 is full again (a dropped bucket is indistinguishable    *)
-(*                 from a new one), and it IS dropped by the first call of *)
-(*                 SubnetLimiter.Allow at or after FullAt + GracePeriod    *)
+(*                 from a new one), (b) not before FullAt + GracePeriod    *)
 (*                 ("GracePeriod is the time to wait to remove a full      *)
-(*                 capacity bucket").                                      *)
-(*  R8 replenish   Time alone only ever refills: a tick raises no deficit and  *)
-(*                 postpones no Expiry, and lowers at least one while anything *)
-(*                 is not full (so every bucket is full again after            *)
-(*                 Burst/RPS, and a refused address is served again).          *)
+(*                 capacity bucket"), and (c) it IS dropped by the first   *)
+(*                 call of SubnetLimiter.Allow - for any address of any    *)
+(*                 family - after that instant (at the instant itself the  *)
+(*                 code drops, Expire's comment would keep: either is      *)
+(*                 accepted by the harness).                               *)
 (*  R7 zero        RPS == 0 in GlobalLimit / a NetworkPrefixLimit means    *)
 (*                 unlimited ("Use 0 for no rate limiting"), whatever      *)
 (*                 Burst is; no configured subnet limits = unlimited.      *)
-(*                 (A SubnetLimit with RPS == 0 is outside this model: see *)
-(*                 the zero-RPS probe of the harness.)                     *)
+(*                 A SubnetLimit with RPS == 0 is NOT unlimited in the     *)
+(*                 code (finding rate-subnet-zero-rps-not-unlimited): it   *)
+(*                 is excluded from the model (ASSUME rate > 0) and probed *)
+(*                 separately by the harness.                              *)
+(*  R8 replenish   Time alone only ever refills: a tick raises no deficit, *)
+(*                 postpones no Expiry, and lowers at least one of them    *)
+(*                 while anything is not full; once nothing changes every  *)
+(*                 bucket holds its burst (so a refused address is served  *)
+(*                 again after at most Burst/RPS).                         *)
+(*                                                                         *)
+(* Where: R1 BoundOK (+TypeOK) and the ledger's window check; R2 DecisionOK*)
+(* and the ledger's rate-spurious-refusal; R3 PrefixExempt; R4 RefusalInert*)
+(* ; R5 Independence, ChargeOnce; R6 ForgetSound, ExpiryCovers, Retention  *)
+(* and the harness's in-package read of the heaps; R8 Replenish, Rested and*)
+(* the rest-and-probe at the end of every replayed walk.  Concurrent use:  *)
+(* C03rate_Conc.tla.  Composition with the connLimiter: C03rate_Conn.tla.  *)
 (*                                                                         *)
 (* TIME AND TOKENS.  Time is an integer number of ticks; token amounts are *)
 (* integers in units of 1/U token.  The model stores, per bucket, the      *)
